@@ -11,7 +11,7 @@ import signal
 import fw
 from fw import InjectedError, enc, err_name
 
-LEAN_TARGETS = ["RxProofs.C18"]
+LEAN_TARGETS = ["RxProofs.C18", "RxProofs.C02Win"]
 DRIVER = "drv_win"
 DRIVER_ROOT = "Win"
 T0 = 200
@@ -1024,6 +1024,22 @@ THEOREMS = [
     "C18.toggle_windows_end_partial",
     "C18.toggle_completion_counter",
     "C18.timer_chain",
+    "C18.wwt_window_k",
+    "C18.closed_windows_ended_boundaries",
+    "C18.closed_windows_ended_when",
+    "C18.closed_windows_ended_time",
+    "C18.closed_windows_ended_time_or_count",
+    "C18.all_windows_end_with_source_boundaries",
+    "C18.all_windows_end_with_source_when",
+    "C18.all_windows_end_with_source_time",
+    "C18.all_windows_end_with_source_time_or_count",
+    "C18.buffer_count_filter",
+    "C18.buffer_run_is_view_count",
+    "C18.buffer_run_is_view_boundaries",
+    "C18.buffer_run_is_view_when",
+    "C18.buffer_run_is_view_toggle",
+    "C18.buffer_run_is_view_time",
+    "C18.buffer_run_is_view_time_or_count",
     "C18.buffer_is_items",
     "C18.buffer_view_seen",
     "C18.buffer_eq_window_count",
@@ -1032,6 +1048,15 @@ THEOREMS = [
     "C18.buffer_eq_window_toggle",
     "C18.buffer_eq_window_time",
     "C18.buffer_eq_window_time_or_count",
+    "C02Win.terminal_releases_all_count", "C02Win.dispose_releases_all_count",
+    "C02Win.terminal_releases_all_boundaries", "C02Win.dispose_releases_all_boundaries",
+    "C02Win.terminal_releases_all_when", "C02Win.dispose_releases_all_when",
+    "C02Win.terminal_releases_all_toggle", "C02Win.dispose_releases_all_toggle",
+    "C02Win.terminal_releases_all_time", "C02Win.dispose_releases_all_time",
+    "C02Win.terminal_releases_all_time_or_count", "C02Win.dispose_releases_all_time_or_count",
+    "C02Win.terminal_releases_all_group", "C02Win.dispose_releases_all_group", "C02Win.group_holder_blocks_release",
+    "C02Win.fin_source_disposed_at_most_once", "C02Win.terminal_releases_all_fin_partial", "C02Win.dispose_releases_all_fin",
+    "C02Win.using_releases_all", "C02Win.finally_action_releases_all",
 ]
 RULE = ("six window operators (with_count, boundaries, when, toggle, with_time, with_time_or_count) and their buffer twins on hot "
         "(and, for the untimed operators, also cold-source) TestScheduler timelines: 0..20 elements incl. falsy values and same-instant arrivals, count/skip 1..N with skip<count, "
@@ -1067,11 +1092,15 @@ LEVEL_TEXT = ("Lean theorems about hand-written models of window_with_count_, wi
               "buffer = contents of its window).")
 LEVEL_NOTE = ("window_toggle/buffer_toggle: the full end-with-source statement is false of the code (known finding "
               "C18-toggle-open-at-source-completion); proved: toggle_windows_end_partial (source error) and the decided counter-example "
-              "toggle_completion_counter on the as-is model. buffer_eq_window_*: buffers are modelled as the flat_map(to_list) view over "
-              "the window machine's log (BufView, RxModel/WinBuf.lean; to_list's accumulator of a window = the elements its observer "
-              "received); proved for every state of every run of all six machines: those elements = the elements pushed into the window, "
-              "and the view emits exactly them at the window's completion; that the real buffer operators are this composition is "
-              "checked by correspondence + the buffer oracle. windows_end_with_source_* speak about the operator's open set in an "
-              "arbitrary state; that every window outside the open set has already ended is not proved (oracle only). The time-window routing theorem is over the machine's explicit "
-              "schedule (Mach.sched) / any tick placement; the closed form 'window k receives the elements in (k*shift, k*shift+span]' is "
-              "checked by the oracle, not proved. Assumed: static same-instant order of hot sources; integer time.")
+              "toggle_completion_counter on the as-is model. Buffers: buffer_run_is_view_* (the buffer run the driver compares with the real "
+              "buffer_* operators is the flat_map(to_list) view of a run of the same window machine), buffer_count_filter (the non-empty "
+              "filter), buffer_eq_window_* / buffer_is_items (what a window's subscriber received = what was pushed; the view emits it at "
+              "completion): only the library's own composition source.pipe(window_x, flat_map(to_list)[, filter]) is left to the "
+              "correspondence. closed_windows_ended_* / all_windows_end_with_source_* (boundaries, when, time, time_or_count; count via "
+              "wwc_ends_with_source): every window outside the open set has ended, so a source terminal leaves no window un-ended; not "
+              "proved for toggle (known finding). wwt_window_k: closed form of time windows (window k holds the processed elements "
+              "arriving in (t0+k*shift, t0+k*shift+span], source wins ties) along the machine's own schedule for time-sorted hot input; "
+              "that the schedule reaches all input when the fuel suffices is not proved (fuel is a driver artefact; the driver gives "
+              "4*(events+horizon)+16). window_with_time_or_count has no closed form theorem (oracle only). when_mapper_raise_asis is an "
+              "AsIs witness of the handler before repo fix c2c9edd. C02Win.* (release of all subscriptions) are built and audited with "
+              "this check. Assumed: static same-instant order of hot sources; integer time.")
